@@ -9,6 +9,7 @@ import (
 	"strings"
 	"testing"
 
+	jsonv2 "github.com/go-json-experiment/json"
 	"github.com/philpearl/avro"
 	"pgregory.net/rapid"
 
@@ -148,6 +149,17 @@ func runC14(c c14Case) (bool, []string, error) {
 	}
 	if d := fromLib(s).Diff(c.Schema, ""); d != "" {
 		return nt, labels, fmt.Errorf("parsed schema differs from the document: %s\n%s", d, doc)
+	}
+	// the same document arriving as a stream (a schema registry response, a file): the
+	// Schema type is its own JSON decoder, whatever feeds it
+	for _, chunk := range []int{1 + len(doc)%7, 4096} {
+		var streamed avro.Schema
+		if err := jsonv2.UnmarshalRead(&shortReader{data: []byte(doc), max: chunk}, &streamed); err != nil {
+			return nt, labels, fmt.Errorf("the document is refused when it is decoded from a stream (%d bytes per read): %v\n%s", chunk, err, doc)
+		}
+		if d := fromLib(streamed).Diff(c.Schema, ""); d != "" {
+			return nt, labels, fmt.Errorf("the document decoded from a stream (%d bytes per read) differs: %s\n%s", chunk, d, doc)
+		}
 	}
 	out, err := s.Marshal()
 	if err != nil {
